@@ -1,3 +1,522 @@
-PLANS = {}
+"""Twin properties: C05, C10, C11, C16, C17, C18 (trace validation against TraceTwin.tla)."""
+import copy, json, os, random, time, shutil
+from fractions import Fraction
+from math import gcd
+from . import gen, model, run, props
+
+PLANS = {
+    "C05": {"twin": ["TwinBlocks", "TwinTaus"], "single": []},
+    "C10": {"twin": ["TwinFull"], "single": []},
+    "C11": {"twin": ["TwinChan", "TwinCtl"], "single": ["C11_MaskUntouched", "C03_CallOk"]},
+    "C16": {"twin": ["TwinFull"], "single": []},
+    "C17": {"twin": ["TwinCtl"], "single": []},
+    "C18": {"twin": ["TwinFull"], "single": []},
+}
+
+
+def with_id(op, i):
+    o = dict(op)
+    o["id"] = i
+    return o
+
+
+def calm(n):
+    """keep fixed-input histories away from the known findings KF-D8a/c (large ratio steps)"""
+    if n["kind"] in ("FastFixedIn", "SincFixedIn"):
+        n["maxrel"] = {"p": 11, "q": 10}
+    if n["kind"].startswith("Sinc") and n.get("F") == 1:
+        n["F"] = 2
+    return n
+
+
+def suffix_ops(rng, n, count, allow=("ratio", "ramp", "chunk")):
+    kind = n["kind"]
+    ops = []
+    maxrel = gen.frac_of(n["maxrel"]) if kind in gen.ASYNC else Fraction(1)
+    orig = gen.frac_of(n["r"]) if kind in gen.ASYNC else Fraction(1)
+    rels = gen.in_range_rels(maxrel)
+    for _ in range(count):
+        u = rng.random()
+        if kind in gen.ASYNC and "ratio" in allow and u < 0.2:
+            ops.append({"op": "set_ratio", "x": gen.rj(orig * rng.choice(rels)), "ramp": rng.random() < 0.5, "rel": False})
+        elif kind.startswith("Sinc") and "chunk" in allow and u < 0.3:
+            ops.append({"op": "set_chunk", "n": rng.randrange(1, n["chunk"] + 1)})
+        else:
+            ops.append({"op": "process"})
+    return ops
+
+
+# ------------------------------------------------------------------------------------------------
+def c10_scripts(rng, tier, model_prefixes):
+    S = []
+    n_gen = {"quick": 10, "thorough": 150}[tier]
+    for _ in range(n_gen):
+        for kind in gen.KINDS:
+            pre = gen.bad_history(rng, kind, rng.randrange(1, 14), small=rng.random() < 0.4)
+            n = calm(pre[0])
+            n["signal"] = "noise"
+            n.pop("probe", None)
+            if rng.random() < 0.3 and n["ch"] > 1:
+                m = [rng.random() < 0.6 for _ in range(n["ch"])]
+                for o in pre[1:]:
+                    if o["op"] in ("process", "partial"):
+                        o["mask"] = m
+            if rng.random() < 0.3:
+                pre.append({"op": "partial", "id": 0, "k": rng.choice([-1, 1, 2])})
+            suf = suffix_ops(rng, n, rng.randrange(3, 9))
+            ops = list(pre) + [{"op": "note", "twin": "full", "a": 0, "b": 1}, {"op": "reset", "id": 0}, with_id(n, 1)]
+            for o in suf:
+                ops += [with_id(o, 0), with_id(o, 1)]
+            S.append(ops)
+    # every reachable control state of the as-is models as the history before the reset
+    for ops0 in model_prefixes:
+        n = dict(ops0[0])
+        n["signal"] = "noise"
+        n.pop("probe", None)
+        pre = [n] + ops0[1:]
+        suf = [{"op": "process"}, {"op": "process"}, {"op": "process"}]
+        ops = pre + [{"op": "note", "twin": "full", "a": 0, "b": 1}, {"op": "reset", "id": 0}, with_id(n, 1)]
+        for o in suf:
+            ops += [with_id(o, 0), with_id(o, 1)]
+        S.append(ops)
+    return S
+
+
+def c16_scripts(rng, tier, model_prefixes):
+    S = []
+    n_gen = {"quick": 12, "thorough": 160}[tier]
+
+    def wrap_pair(mask, ch):
+        u = rng.random()
+        a = {"op": "process"}
+        b = {"op": "process", "via": "into"}
+        if u < 0.3:
+            a["via"] = rng.choice(["alloc", "vec_alloc", "vec_into", "slices"])
+        elif u < 0.75:
+            f = rng.choice([[1, 2], [1, 3], [2, 3], [1, 100], [99, 100], [1, 1]])
+            a = {"op": "partial", "kf": f, "via": rng.choice(["into", "alloc", "vec_into", "vec_alloc"])}
+            b["zf"] = f
+        else:
+            a = {"op": "partial", "k": -1, "via": rng.choice(["into", "alloc", "vec_into", "vec_alloc"])}
+            b["zero_from"] = 0
+        if mask is not None:
+            a["mask"] = mask
+            b["mask"] = mask
+            if not any(mask):
+                a["via"] = "into" if a["op"] == "partial" else "vec_into"
+        return a, b
+
+    def build(n, pre_common, steps):
+        mask = None
+        if n["ch"] > 1 and rng.random() < 0.4:
+            mask = [rng.random() < 0.6 for _ in range(n["ch"])]
+        ops = [with_id(n, 0), with_id(n, 1), {"op": "note", "twin": "full", "a": 0, "b": 1}]
+        for o in pre_common:
+            if o["op"] in ("process", "partial") and mask is not None:
+                o = dict(o)
+                o["mask"] = mask
+            ops += [with_id(o, 0), with_id(o, 1)]
+        for _ in range(steps):
+            if rng.random() < 0.2:
+                for o in suffix_ops(rng, n, 1, allow=("ratio", "ramp", "chunk")):
+                    if o["op"] != "process":
+                        ops += [with_id(o, 0), with_id(o, 1)]
+                continue
+            a, b = wrap_pair(mask, n["ch"])
+            ops += [with_id(a, 0), with_id(b, 1)]
+        return ops
+
+    for _ in range(n_gen):
+        for kind in gen.KINDS:
+            n = calm(gen.new_op(rng, kind, small=rng.random() < 0.4))
+            n["signal"] = "noise"
+            n.pop("probe", None)
+            S.append(build(n, [], rng.randrange(4, 12)))
+    for ops0 in model_prefixes:
+        n = dict(ops0[0])
+        n["signal"] = "noise"
+        n.pop("probe", None)
+        S.append(build(n, ops0[1:], 4))
+    return S
+
+
+def c17_scripts(rng, tier, model_prefixes):
+    S = []
+    n_gen = {"quick": 12, "thorough": 160}[tier]
+    for _ in range(n_gen):
+        for kind in gen.KINDS:
+            h = gen.valid_history(rng, kind, rng.randrange(6, 30), small=rng.random() < 0.3,
+                                  allow=("ratio", "ramp", "chunk", "reset", "via"))
+            n = calm(h[0])
+            n["signal"] = "noise"
+            n.pop("probe", None)
+            a, b = dict(n), dict(n)
+            a["T"], b["T"] = 32, 64
+            ops = [with_id(a, 0), with_id(b, 1), {"op": "note", "twin": "ctl", "a": 0, "b": 1}]
+            for o in h[1:]:
+                ops += [with_id(o, 0), with_id(o, 1)]
+            S.append(ops)
+    for ops0 in model_prefixes:
+        n = dict(ops0[0])
+        n["signal"] = "noise"
+        n.pop("probe", None)
+        a, b = dict(n), dict(n)
+        a["T"], b["T"] = 32, 64
+        ops = [with_id(a, 0), with_id(b, 1), {"op": "note", "twin": "ctl", "a": 0, "b": 1}]
+        for o in ops0[1:] + [{"op": "process"}]:
+            ops += [with_id(o, 0), with_id(o, 1)]
+        S.append(ops)
+    return S
+
+
+def c11_scripts(rng, tier, model_prefixes):
+    S = []
+    n_gen = {"quick": 10, "thorough": 120}[tier]
+
+    def build(n, nch, mask, common):
+        A = dict(n); A["ch"] = nch
+        ops = [with_id(A, 0), with_id(A, 1)]
+        active = [c for c in range(nch) if mask[c]]
+        singles = {}
+        for k, c in enumerate(active):
+            b = dict(n); b["ch"] = 1; b["chbase"] = c
+            singles[c] = 2 + k
+            ops.append(with_id(b, 2 + k))
+        ops.append({"op": "note", "twin": "ctl", "a": 0, "b": 1})          # masked vs unmasked: counts, getters
+        for c, i in singles.items():
+            ops.append({"op": "note", "twin": "chan", "a": 1, "b": i, "c": c})   # unmasked n-channel vs single
+        for o in common:
+            om = dict(o)
+            if o["op"] in ("process", "partial"):
+                om["mask"] = mask
+                om["via"] = "into"
+                if rng.random() < 0.5:
+                    om["empty_masked"] = True
+            ops.append(with_id(om, 0))
+            ops.append(with_id(o, 1))
+            for c, i in singles.items():
+                ops.append(with_id(o, i))
+        # masked instance vs the singles as well (second relation set, declared on fresh records is
+        # not possible without clearing: use a second n-channel masked instance)
+        return ops
+
+    def build2(n, nch, mask, common):
+        """masked n-channel instance vs single-channel twins of its active channels"""
+        A = dict(n); A["ch"] = nch
+        ops = [with_id(A, 0)]
+        active = [c for c in range(nch) if mask[c]]
+        singles = {}
+        for k, c in enumerate(active):
+            b = dict(n); b["ch"] = 1; b["chbase"] = c
+            singles[c] = 1 + k
+            ops.append(with_id(b, 1 + k))
+        for c, i in singles.items():
+            ops.append({"op": "note", "twin": "chan", "a": 0, "b": i, "c": c})
+        for o in common:
+            om = dict(o)
+            if o["op"] in ("process", "partial"):
+                om["mask"] = mask
+                om["via"] = "into"
+                if rng.random() < 0.5:
+                    om["empty_masked"] = True
+            ops.append(with_id(om, 0))
+            for c, i in singles.items():
+                ops.append(with_id(o, i))
+        return ops
+
+    for _ in range(n_gen):
+        for kind in gen.KINDS:
+            h = gen.valid_history(rng, kind, rng.randrange(4, 14), small=rng.random() < 0.5,
+                                  allow=("ratio", "ramp", "chunk", "reset"))
+            n = calm(h[0])
+            n["signal"] = "noise"
+            n.pop("probe", None)
+            n["T"] = rng.choice([32, 64])
+            nch = rng.randrange(1, 9)
+            mask = [rng.random() < 0.6 for _ in range(nch)]
+            if rng.random() < 0.1:
+                mask = [False] * nch
+            if rng.random() < 0.1:
+                mask = [True] * nch
+            common = [o for o in h[1:] if "mask" not in o]
+            for o in common:
+                o.pop("empty_masked", None)
+            S.append((build if rng.random() < 0.5 else build2)(n, nch, mask, common))
+    # all 2^n masks for n <= 3 on a few model-generated histories
+    for ops0 in model_prefixes[: {"quick": 40, "thorough": 400}[tier]]:
+        n = dict(ops0[0])
+        n["signal"] = "noise"
+        n.pop("probe", None)
+        nch = rng.randrange(1, 4)
+        mask = [bool((rng.randrange(1 << nch) >> c) & 1) for c in range(nch)]
+        S.append(build2(n, nch, mask, ops0[1:] + [{"op": "process"}]))
+    return S
+
+
+def c18_scripts(rng, tier, schedules):
+    """schedules: list of [[inst, thread], ...] from Fleet.tla"""
+    S = []
+    kinds = gen.KINDS
+    for sched in schedules:
+        ninst = max(s[0] for s in sched)
+        # every instance gets the same parameters and the same call list; instance 0 is the
+        # single-threaded reference that runs first
+        kind = rng.choice(kinds)
+        h = gen.valid_history(rng, kind, 12, small=rng.random() < 0.6, allow=("ratio", "ramp", "chunk", "reset"))
+        n = calm(h[0])
+        n["signal"] = "noise"
+        n.pop("probe", None)
+        calls = [o for o in h[1:]]
+        K = sum(1 for s in sched if s[0] == 1)
+        calls = (calls + [{"op": "process"}] * K)[:K]
+        ops = [with_id(n, 0)] + [with_id(o, 0) for o in calls]
+        for i in range(1, ninst + 1):
+            ops.append({"op": "note", "twin": "full", "a": 0, "b": i})
+        # constructors: concurrently (planner caches, cpu detection race)
+        ops.append({"op": "par_begin"})
+        for i in range(1, ninst + 1):
+            o = with_id(n, i)
+            o["thread"] = i
+            ops.append(o)
+        ops.append({"op": "par_end"})
+        # NB: the reference's obs start with its "new"; the twins' with theirs (declared before)
+        pcs = {i: 0 for i in range(1, ninst + 1)}
+        # maximal runs of steps with pairwise distinct instances and threads run concurrently
+        k = 0
+        while k < len(sched):
+            group = [sched[k]]
+            j = k + 1
+            while j < len(sched) and all(sched[j][0] != g[0] and sched[j][1] != g[1] for g in group):
+                group.append(sched[j])
+                j += 1
+            if len(group) > 1:
+                ops.append({"op": "par_begin"})
+            for inst, thr in group:
+                o = with_id(calls[pcs[inst]], inst)
+                o["thread"] = thr
+                pcs[inst] += 1
+                ops.append(o)
+            if len(group) > 1:
+                ops.append({"op": "par_end"})
+            k = j
+        S.append(ops)
+    # free running: many threads x instances, everything concurrent
+    for _ in range({"quick": 6, "thorough": 60}[tier]):
+        kind = rng.choice(kinds)
+        h = gen.valid_history(rng, kind, 10, small=rng.random() < 0.5, allow=("ratio", "ramp", "chunk", "reset"))
+        n = calm(h[0])
+        n["signal"] = "noise"
+        n.pop("probe", None)
+        calls = h[1:]
+        nthr = rng.choice([4, 8, 14])
+        ops = [with_id(n, 0)] + [with_id(o, 0) for o in calls]
+        for i in range(1, nthr + 1):
+            ops.append({"op": "note", "twin": "full", "a": 0, "b": i})
+        ops.append({"op": "par_begin"})
+        for i in range(1, nthr + 1):
+            o = with_id(n, i); o["thread"] = i
+            ops.append(o)
+            for c in calls:
+                o = with_id(c, i); o["thread"] = i
+                ops.append(o)
+        ops.append({"op": "par_end"})
+        S.append(ops)
+    return S
+
+
+def c05_scripts(rng, tier):
+    S = []
+    n_gen = {"quick": 12, "thorough": 150}[tier]
+    # ---- FFT: every adapter and every (chunk, sub) pair that resolves to the same block size
+    for _ in range(n_gen):
+        a, b = rng.choice([(1, 2), (2, 1), (3, 2), (2, 3), (147, 160), (160, 147), (1, 1), (4, 1), (3, 7),
+                           (44100, 48000), (48000, 44100), (5, 4), (1, 3)])
+        g = gcd(a, b)
+        ra, rb = a // g, b // g
+        k = rng.randrange(1, 6) if max(ra, rb) > 50 else rng.randrange(1, 40)
+        T = rng.choice([32, 64])
+        insts = []
+        for _ in range(rng.randrange(2, 5)):
+            kind = rng.choice(gen.FFT)
+            sub = 1 if kind == "FftFixedInOut" else rng.choice([1, 1, 2, 3])
+            unit = rb if kind == "FftFixedOut" else ra
+            w = rng.randrange((k - 1) * unit + 1, k * unit + 1)       # wanted sub-size resolving to k blocks
+            chunk = w * sub + (rng.randrange(sub) if sub > 1 else 0)
+            insts.append({"op": "new", "kind": kind, "T": T, "ch": 1, "fs_in": a, "fs_out": b, "chunk": chunk,
+                          "sub": sub, "signal": "noise", "seed": 99, "blk": 16})
+        ops = [with_id(n, i) for i, n in enumerate(insts)]
+        for i in range(1, len(insts)):
+            ops.append({"op": "note", "twin": "blocks", "a": 0, "b": i})
+        total = 6 * k * rb + 200
+        for i, n in enumerate(insts):
+            per = (max(1, n["chunk"] * rb // ra) if n["kind"] != "FftFixedOut" else n["chunk"])
+            for _ in range(min(400, total // per + 2)):
+                ops.append({"op": "process", "id": i})
+        S.append(ops)
+    # ---- async: constant ratio, different chunkings / variants: same evaluation instants
+    for _ in range(n_gen):
+        fam = rng.choice(["Fast", "Sinc"])
+        r = rng.choice(gen.RATIOS)
+        base = {"op": "new", "T": 64, "ch": 1, "r": gen.rj(r), "maxrel": gen.rj(Fraction(2)), "signal": "index",
+                "seed": 5, "taus_cap": 100000}
+        if fam == "Fast":
+            base["degree"] = rng.choice(["Septic", "Quintic", "Cubic", "Linear"])
+        else:
+            base.update({"L": rng.choice([8, 16, 64]), "F": rng.choice([2, 4, 16, 128]),
+                         "interp": rng.choice(["Cubic", "Quadratic", "Linear"]), "probe": "linear"})
+        insts = []
+        for _ in range(rng.randrange(2, 5)):
+            n = dict(base)
+            n["kind"] = fam + rng.choice(["FixedIn", "FixedOut"])
+            n["chunk"] = rng.choice([1, 2, 3, 7, 16, 33, 64, 100, 256])
+            insts.append(n)
+        ops = [with_id(n, i) for i, n in enumerate(insts)]
+        for i in range(1, len(insts)):
+            ops.append({"op": "note", "twin": "taus", "a": 0, "b": i})
+        want_out = 400
+        for i, n in enumerate(insts):
+            per_out = max(1.0, n["chunk"] * float(r)) if n["kind"].endswith("In") else n["chunk"]
+            calls = int(min(600, want_out / per_out + (base.get("L", 8) * 3) / max(1, n["chunk"]) + 4))
+            for c in range(calls):
+                if fam == "Sinc" and rng.random() < 0.15:
+                    ops.append({"op": "set_chunk", "id": i, "n": rng.randrange(1, n["chunk"] + 1)})
+                ops.append({"op": "process", "id": i})
+        S.append(ops)
+    return S
+
+
+# ------------------------------------------------------------------------------------------------
+def model_prefixes(prop, tier, wd, rng, cov):
+    """TLC-generated histories (one per reachable control state) from the as-is models."""
+    out = []
+    for module, tag, params, conv, q in props.model_configs("C03", tier):
+        res = model.check_model(module, props.cfg_text(module, params, False), wd, "%s-%s" % (prop, tag),
+                                workers=8 if tier == "quick" else 14, timeout=3000)
+        cov["states"] += res["distinct"]
+        cov["transitions"] += res["generated"]
+        cov["model_runs"].append({"module": module, "config": tag, "distinct": res["distinct"],
+                                  "generated": res["generated"], "ok": res["ok"]})
+        if not res["ok"]:
+            raise run.ToolError("model %s/%s fails on its own: %s" % (module, tag, res["error"]))
+        pe = dict(params)
+        demit = None
+        if module == "FftBlocks":
+            pe["depth"] = 3 if tier == "quick" else 5
+        else:
+            demit = 3 if tier == "quick" else 4
+        res2 = model.check_model(module, props.cfg_text(module, pe, True, demit), wd, "%s-%s-emit" % (prop, tag),
+                                 workers=1, timeout=3000)
+        reps = model.maximal(res2["replays"], limit={"quick": 120, "thorough": 2000}[tier], rng=rng)
+        for h in reps:
+            ops, exp = conv(h)
+            # rejected calls of the model alphabet are kept: they must not matter
+            out.append(ops)
+    rng.shuffle(out)
+    return out
+
+
+def fleet_schedules(tier, wd, rng, cov):
+    cfgs = [(2, 2, 2)] if tier == "quick" else [(2, 2, 3), (3, 2, 2), (2, 3, 2), (3, 3, 2)]
+    scheds = []
+    for (N, M, K) in cfgs:
+        cfg = ("SPECIFICATION Spec\nCONSTANTS\n  N = %d\n  M = %d\n  K = %d\n  Emit = TRUE\n"
+               "INVARIANT Isolation\nINVARIANT EmitSchedule\nPROPERTY Diamond\nCHECK_DEADLOCK FALSE\n" % (N, M, K))
+        res = model.check_model("Fleet", cfg, wd, "fleet-%d%d%d" % (N, M, K), workers=1, timeout=1500)
+        if not res["ok"]:
+            raise run.ToolError("Fleet model fails: " + res["error"])
+        cov["states"] += res["distinct"]
+        cov["transitions"] += res["generated"]
+        cov["model_runs"].append({"module": "Fleet", "config": "N%d M%d K%d" % (N, M, K),
+                                  "distinct": res["distinct"], "generated": res["generated"], "ok": True,
+                                  "schedules": len(res["replays"])})
+        scheds += res["replays"]
+    lim = {"quick": 250, "thorough": 5000}[tier]
+    if len(scheds) > lim:
+        scheds = rng.sample(scheds, lim)
+    return scheds
+
+
 def check(prop, tier, seed, replay=None):
-    raise NotImplementedError
+    t0 = time.time()
+    rng = random.Random(seed)
+    plan = PLANS[prop]
+    wd = run.workdir(prop)
+    run.build_harness()
+    if replay:
+        ok, out = run.replay_hard(replay, plan["twin"], wd, module="TraceTwin")
+        ok2 = True
+        if plan["single"]:
+            ok2, out2 = run.replay_hard(replay, plan["single"], wd)
+            out += out2
+        print(out[-3000:] if not (ok and ok2) else "replay: all predicates hold on " + replay)
+        return 0 if ok and ok2 else 1
+    cov = {"states": 0, "transitions": 0, "traces_validated_against_impl": 0, "samples": [],
+           "model_runs": [], "scripts": {}}
+    if prop == "C05":
+        # chunking independence on the content model: AsyncPos C06_Supplied/contiguity under set_chunk
+        # schedules, FftBlocks Contiguous for every (chunk, sub)
+        for module, tag, params, conv, q in props.model_configs("C06", tier) + \
+                [m for m in props.model_configs("C07", tier) if m[0] == "FftBlocks"]:
+            p = dict(params)
+            if module == "FftBlocks":
+                p["invariants"] = ["Contiguous", "C07_Blocks", "C07_DriftIsSaved"]
+            res = model.check_model(module, props.cfg_text(module, p, False), wd, "%s-%s" % (prop, tag),
+                                    workers=8 if tier == "quick" else 14, timeout=3000)
+            if not res["ok"]:
+                raise run.ToolError("model %s/%s fails on its own: %s" % (module, tag, res["error"]))
+            cov["states"] += res["distinct"]
+            cov["transitions"] += res["generated"]
+            cov["model_runs"].append({"module": module, "config": tag, "distinct": res["distinct"],
+                                      "generated": res["generated"], "ok": True, "invariants": p["invariants"]})
+        S = c05_scripts(rng, tier)
+    elif prop == "C18":
+        S = c18_scripts(rng, tier, fleet_schedules(tier, wd, rng, cov))
+    else:
+        pref = model_prefixes(prop, tier, wd, rng, cov)
+        S = {"C10": c10_scripts, "C16": c16_scripts, "C17": c17_scripts, "C11": c11_scripts}[prop](rng, tier, pref)
+    cov["scripts"]["total"] = len(S)
+    pairs = run.run_scripts(S, wd)
+    res = run.validate_traces(pairs, plan["twin"], wd, module="TraceTwin", tag=prop)
+    viols = list(res["viols"])
+    cov["states"] += res["states"]
+    cov["transitions"] += res["transitions"]
+    cov["traces_validated_against_impl"] = res["traces"]
+    cov["events_validated"] = res["events"]
+    if plan["single"]:
+        res2 = run.validate_traces(pairs, plan["single"], wd, module="TraceContract", tag=prop + "s")
+        cov["states"] += res2["states"]
+        cov["transitions"] += res2["transitions"]
+        viols += res2["viols"]
+    known = props.load_known()
+    lines, nviol, seen, seen_known = [], 0, set(), {}
+    for kind, name, script, line, ev, kfid in viols:
+        if kind == "KNOWN" and kfid in known:
+            # a twin whose instance dies of a known finding stops being compared; listed, not an alarm
+            seen_known[kfid] = seen_known.get(kfid, 0) + 1
+            continue
+        if (script, name) in seen:
+            continue
+        seen.add((script, name))
+        nviol += 1
+        keep = run.save_replay(prop, script)
+        lines.append("VIOLATION property=%s replay=%s predicate=%s line=%d" % (prop, keep, name, line))
+    for kfid, cnt in sorted(seen_known.items()):
+        lines.append("KNOWN-FINDING: property=%s %s (%d events) %s" % (prop, kfid, cnt, known[kfid]["site"]))
+    for sp, tp in pairs[:2]:
+        evs = run.read_trace(tp)
+        cov["samples"].append({"script": [json.loads(l) for l in open(sp)][:8],
+                               "events": [{k: e.get(k) for k in ("ev", "id", "res", "nin", "nout", "dig", "thread")
+                                           if k in e} for e in evs[1:7]]})
+    cov["predicates"] = plan["twin"] + plan["single"]
+    cov["rule"] = ("one trace per twin script (2..15 real instances each); states/transitions: TLC runs of the as-is "
+                   "models / Fleet plus TLC trace validation against TraceTwin.tla")
+    wall = time.time() - t0
+    run.write_evidence(prop, tier, seed, "model_checking", cov, wall, nviol,
+                       ["twins are compared on their common prefix; an instance that dies of a known finding ends its comparison",
+                        "bit-identity is compared through 64-bit FNV digests of the written frames"])
+    for l in lines:
+        print(l)
+    print("%s %s: %d traces, %d events, %d states, %d violations, %.1fs" % (
+        prop, tier, res["traces"], res["events"], cov["states"], nviol, wall))
+    shutil.rmtree(wd, ignore_errors=True)
+    return 1 if nviol else 0
